@@ -165,8 +165,13 @@ func pinnedDir() string {
 
 func genDiff(g *fact.Gen) {
 	// `lines` itself, translated statement by statement (harness/internal/go2lean)
-	g.TranslateModule("DiffGo", "diff/diff.go", []string{"lines"}, "diff",
-		[]string{"GIV.GoLib", "GIV.Model.Diff"}, "GIV.Go.Diff", filepath.Join(pinnedDir(), "DiffGo.lean"))
+	// and `tgs` (the map of counts, the index slices, sort.Search, the backward scan)
+	g.TranslateModule("DiffGo", "diff/diff.go", []string{"lines", "tgs"}, "diff",
+		[]string{"GIV.GoLib", "GIV.GoLibMap", "GIV.GoLibSort", "GIV.Model.Diff"}, "GIV.Go.Diff", filepath.Join(pinnedDir(), "DiffGo.lean"))
+	// `Diff` itself: the hunk-assembling loop, the bytes.Buffer it prints into (a module of its own, so that a change
+	// of Diff that leaves the translatable subset does not take the tie of lines / tgs with it)
+	g.TranslateModule("DiffMainGo", "diff/diff.go", []string{"Diff"}, "diffmain",
+		[]string{"GIV.GoLib", "GIV.GoLibFmt", "GIV.Gen.DiffGo"}, "GIV.Go.Diff", filepath.Join(pinnedDir(), "DiffMainGo.lean"))
 	const rel = "diff/diff.go"
 	g.Emit("set_option linter.unusedVariables false\n/-! facts read from %s: func Diff, func lines, func tgs -/\n", rel)
 	diff := g.FuncDecl(rel, "Diff")
